@@ -85,6 +85,7 @@ func buildProperty(ww *conversionVisitor, node *sourcewalk.PropertyNode) (*descr
 			Label:    descriptorpb.FieldDescriptorProto_LABEL_REPEATED.Enum(),
 			Type:     descriptorpb.FieldDescriptorProto_TYPE_MESSAGE.Enum(),
 			TypeName: &entryName,
+			Options:  &descriptorpb.FieldOptions{},
 		}
 
 	case *schema_j5pb.Field_Array:
